@@ -13,7 +13,7 @@ Driver commands of the `hints` group (C05, C04).  See ENGINE_PROTOCOL.md for the
   implementation runs the query under the wrapper adapter that records the required-properties check
   of every `resolve_property` call; the oracle lives in the harness).
 * `(hints <schema> <query text hex> <ir> <args>)` → `(hints (v <vid> (static (<prop> <cand>)…)
-  (dyn (<prop> <op> <(ctx <vid> <field>)|(fcount <eid>)>)…) (mand <eid>…))…)` in Vid order: what the root `ResolveInfo` (not completed) and the
+  (dyn (<prop> <op> <(ctx <vid> <field>)|(fcount <eid>)> <initial cand>)…) (mand <eid>…))…)` in Vid order: what the root `ResolveInfo` (not completed) and the
   `NeighborInfo`s reached from it through `edges_with_name(..).destination()` report; candidates in
   the syntax of `Driver/Cand.lean`; `(v <vid> panic)` when a hint method panics.
 * `(points <schema> <data> <query text hex> <ir> <args> (eids <eid>…))` → `(points (start <vid> …)
@@ -69,7 +69,7 @@ def infoReport (args : List (Name × Value)) (comp : Component) (v : IRVertex) (
     let es ← mandatoryEdges args comp i
     let stS := String.join (st.filterMap fun (p, c) => c.map fun c => s!" ({p} {renderCandidate c})")
     let dyS := String.join (dy.filterMap fun (p, c) => c.map fun (d : DynChoice) =>
-      s!" ({p} {renderBareOp d.op} {renderTagRef d.field})")
+      s!" ({p} {renderBareOp d.op} {renderTagRef d.field} {renderCandidate d.initial})")
     let mdS := String.join ((sortNats (es.map (·.eid))).map fun e => s!" {e}")
     pure s!"(static{stS}) (dyn{dyS}) (mand{mdS})"
   match body with
